@@ -164,10 +164,11 @@ class Alternative(ElseIf, ConclusionSelector):
     ) -> Iterable[OperationResult]:
         outputs = super()._evaluate__(sources, parent=parent)
         for output in outputs:
-            # Only yield if conclusions were successfully added (not duplicates)
-            if not self.left._is_false_:
+            # which operand produced this output is what the else-if evaluation itself recorded; the operands' own
+            # `_is_false_` is not maintained by every kind of expression (quantifiers, predicate calls)
+            if self.left_evaluated:
                 self.update_conclusion(output, self.left._conclusion_)
-            elif not self.right._is_false_:
+            elif self.right_evaluated and output.is_true:
                 self.update_conclusion(output, self.right._conclusion_)
             yield OperationResult(output.bindings, self._is_false_, self)
             self._conclusion_.clear()
